@@ -1004,7 +1004,7 @@ pub fn write_seed_corpus(dir: &std::path::Path) {
 pub fn property() -> Property {
     Property {
         id: "C17",
-        rule: "round trips: random multigraphs stored as StableGraph with node and edge vacancies (incl. trailing ones), index widths u8/u16/u32/usize, u8 graphs filled to 250..254 nodes, compacted Graph, vacancy-free StableGraph, GraphMap, and weight types [u32;2], String with quotes/backslashes, (), (i8,f32); through serde_json and bincode into the same type, Graph <-> StableGraph, a wider index type and GraphMap -> Graph; the full C01/C02 observation of the result must equal the original's; graphs holding exactly 253..255 elements (u8) as a separate class. hostile input: 1-3 structured mutations of a valid JSON value (drop field, rewrite/extend node_holes, point an edge at a hole / out of range / Ix::MAX, null edges, wrong edge_property, arrays grown to 254/255/256/300 entries, wrong types, duplicated edges, truncated nodes) read as six graph types, and 1-3 byte edits (bit flip, set, add, insert, truncate) of valid bincode streams of StableGraph<u8|u32> and GraphMap; the result must be Err or a graph that passes the full self-consistency observation and then survives add_node x3, add_edge, remove_node of every node, each step compared with a model; no panic; both build profiles. Non-trivial = round trip of a StableGraph with >= 1 node and >= 1 edge vacancy, or a mutated stream that is accepted; distinct by case fingerprint",
+        rule: "round trips: random multigraphs stored as StableGraph with node and edge vacancies (incl. trailing ones), index widths u8/u16/u32/usize, u8 graphs filled to 250..254 nodes, compacted Graph, vacancy-free StableGraph, GraphMap, and weight types [u32;2], String with quotes/backslashes, (), (i8,f32); through serde_json and bincode into the same type, Graph <-> StableGraph, a wider index type and GraphMap -> Graph; the full C01/C02 observation of the result must equal the original's; graphs holding exactly 253..255 elements (u8) as a separate class. hostile input: 1-3 structured mutations of a valid JSON value (drop field, rewrite/extend node_holes, point an edge at a hole / out of range / Ix::MAX, null edges, wrong edge_property, arrays grown to 254/255/256/300 entries, wrong types, duplicated edges, truncated nodes) read as six graph types and as GraphMap, and 1-3 byte edits (bit flip, set, add, insert, truncate) of valid bincode streams of StableGraph<u8|u32> and GraphMap; the result must be Err or a graph that passes the full self-consistency observation and then survives add_node x3, add_edge, remove_node of every node, each step compared with a model; no panic; both build profiles. raw-bytes: bincode streams assembled field by field from a tape of small numbers (plausible lengths, option tags, indices, edge-property tags, then optional truncation / garbage / one overwritten byte) and plain byte strings, read as all six types plus GraphMap; an accepted GraphMap must pass graphmap_consistent (duplicate-free adjacency in both directions = edge table = edge_count, removal of everything); round trips also cover a StableGraph whose trailing slots were used and freed (count == bound) read as Graph, and a multigraph Graph stream read as GraphMap. Non-trivial = round trip of a StableGraph with >= 1 node and >= 1 edge vacancy, or a mutated stream that is accepted; distinct by case fingerprint",
         assumptions: &["bincode streams are read from a slice with bincode's default options (no pre-allocation from untrusted length prefixes beyond serde's cautious size hint)"],
         both_profiles: true,
         subs: vec![
